@@ -182,6 +182,10 @@ pub struct Knobs {
     /// other build metadata) instead of an unrelated constant
     #[serde(default)]
     pub nested_sibling: bool,
+    /// print and serialise a second, never-printed instance of the value (the reference texts
+    /// come from the first one), and check afterwards that it still prints its own text
+    #[serde(default)]
+    pub fresh_instance: bool,
 }
 
 impl Default for Knobs {
@@ -192,6 +196,7 @@ impl Default for Knobs {
             pretty: false,
             fmt_shape: FmtShape::Plain,
             nested_sibling: false,
+            fresh_instance: false,
         }
     }
 }
